@@ -288,6 +288,7 @@ fn gen_val_col(rng: &mut Rng, n: usize) -> (ColType, &'static str, Vec<Cell>) {
         6 => (ColType::Int("i64"), "int:i64", (0..n).map(|_| Cell::Int((rng.next() as i64) >> 2)).collect()),
         7 => (ColType::Int("huge"), "int:huge", (0..n).map(|_| Cell::Int(*rng.pick(&[i64::MAX - 1, i64::MAX - 2, 1, 0, -1, i64::MIN + 2, i64::MIN + 1, 1 << 62, -(1 << 62)]))).collect()),
         8 => { let mut x = rng.range(-100, 100); (ColType::Int("mono"), "int:mono", (0..n).map(|_| { x += rng.range(0, 30); Cell::Int(x) }).collect()) }
+        9 => (ColType::Float("inf"), "float:inf", (0..n).map(|_| Cell::f(*rng.pick(&[f64::INFINITY, f64::NEG_INFINITY, 0.5, -2.25, 1e300]))).collect()),
         _ => (ColType::Float("dyadic"), "float:dyadic", gen_floats(rng, n, "dyadic").into_iter().map(Cell::f).collect()),
     };
     if rng.chance(1, 2) { let mask = gen_null_mask(rng, n); cells = apply_nulls(cells, &mask); }
@@ -400,6 +401,9 @@ fn corpus(rng: &mut Rng, cases: &mut Cases) {
     run_table(rng, cases, "corpus:fixed:bits-2pow62", &t, &fixed_realisation(vec![0, 4], 0), &[(vec![key(1), key(2), Sel::Count1], None), (vec![key(2), key(1), Sel::Count1], None)]);
     let t = table(vec![("id", ColType::Id, ints(&[0, 1, 2, 3])), ("k0", ColType::Int("u8"), opt_ints(&[Some(0), Some(255), None, Some(254)])), ("k1", ColType::Int("u16"), opt_ints(&[Some(0), Some(65535), None, Some(3)])), ("v0", ColType::Int("small"), ints(&[1, 1, 2, 1]))]);
     run_table(rng, cases, "corpus:fixed:fuse-narrow", &t, &fixed_realisation(vec![0, 4], 0), &[(vec![key(1), Sel::Count1], None), (vec![key(2), Sel::Agg('s', 3)], None), (vec![key(1), key(3), Sel::Count1], None)]);
+    // fixed (7c18757): MIN / MAX of a group whose float inputs are all +inf / -inf
+    let t = table(vec![("id", ColType::Id, ints(&[0, 1, 2])), ("k0", ColType::Int("small"), ints(&[1, 2, 2])), ("v0", ColType::Float("inf"), vec![Cell::f(f64::INFINITY), Cell::f(f64::NEG_INFINITY), Cell::f(f64::NEG_INFINITY)])]);
+    run_table(rng, cases, "corpus:fixed:minmax-float-infinity", &t, &fixed_realisation(vec![0, 3], 0), &[(vec![key(1), Sel::Agg('m', 2), Sel::Agg('M', 2)], None)]);
     // fixed (9a727c6): final pass over two grouping columns that share one result column (both constant 0)
     let t = table(vec![("id", ColType::Id, ints(&[0])), ("k0", ColType::Int("small"), ints(&[0])), ("k1", ColType::Int("small"), ints(&[0])), ("v0", ColType::Int("small"), ints(&[-1]))]);
     run_table(rng, cases, "corpus:fixed:finalpass-alias", &t, &fixed_realisation(vec![0, 1], 0), &[(vec![key(1), key(2), Sel::Agg('a', 3), Sel::Agg('s', 3), Sel::Agg('m', 3)], None)]);
